@@ -96,6 +96,14 @@ def scn_scaler(T, case):
             T.assume(abs(float(x[i]) - float(lb[i])) > 1e-9 * (1 + abs(float(x[i]))) and abs(float(x[i]) - float(ub[i])) > 1e-9 * (1 + abs(float(x[i]))))
         T.prove("C11.scaler.bounds_satisfied_iff_transformed_bounds_satisfied", T.all([T.implies(inside, inside_h), T.implies(inside_h, inside)]))
     T.prove("C11.scaler.transformed_bounds_keep_their_order", T.all(lh <= uh))
+    # frame: no method modifies the array it is given (callers keep using their arrays: fix_perturbations, the evaluator rows, ...)
+    mags = T.real("magnitudes", (n,), lo=0.0)
+    dl, du = T.real("diffs_lower", (n,)), T.real("diffs_upper", (n,))
+    keep = [a.copy() for a in (x, y, mags, dl, du)]
+    sc.to_optimizer(x), sc.from_optimizer(y), sc.magnitudes_to_optimizer(mags), sc.bound_constraint_diffs_from_optimizer(dl, du)
+    T.prove("C11.scaler.no_method_modifies_its_arguments", T.all([T.same(a, b) for a, b in zip((x, y, mags, dl, du), keep)]))
+    T.prove("C11.scaler.magnitudes_scale_like_differences_of_variables", T.same(sc.magnitudes_to_optimizer(mags), sc.to_optimizer(x + mags) - sc.to_optimizer(x)) if T.symbolic
+            else T.close(sc.magnitudes_to_optimizer(mags), sc.to_optimizer(x + mags) - sc.to_optimizer(x), 1e-9))
 
 
 # ------------------------------------------------------------------------------------ request invariance
@@ -313,6 +321,32 @@ def scn_linear_config(T, case):
     T.prove("C11.linear_config.without_transform_the_constraints_are_the_user_domain_ones", T.same(same.coefficients, A) & T.same(same.lower_bounds, lb) & T.same(same.upper_bounds, ub))
 
 
+# ------------------------------------------------------------------------------------ user-domain results (shared contract)
+def cases_user_results(tier):
+    from contracts import backtransform
+
+    return backtransform.cases(tier)
+
+
+def scn_user_results(T, case):
+    from contracts import backtransform
+
+    backtransform.scenario(T, case, "C11")
+
+
+# ------------------------------------------------------------------------------------ what the plan steps hand on (shared contract)
+def cases_steps(tier):
+    from contracts import stepcontract
+
+    return stepcontract.cases(tier)
+
+
+def scn_steps(T, case):
+    from contracts import stepcontract
+
+    stepcontract.scenario(T, case, "C11")
+
+
 SCENARIOS = [
     Scenario("evaluator_requests_in_user_coordinates", scn_chain_requests, cases_chain_requests, {"quick": 3, "thorough": 20}),
     Scenario("scaler_round_trip_and_bounds", scn_scaler, cases_scaler, {"quick": 10, "thorough": 100}),
@@ -320,6 +354,8 @@ SCENARIOS = [
     Scenario("linear_constraints", scn_linear, cases_linear, {"quick": 10, "thorough": 100}),
     Scenario("linear_constraints_config_object", scn_linear_config, cases_linear_config, {"quick": 10, "thorough": 100}),
     Scenario("results_back_transform", scn_results, cases_results, {"quick": 10, "thorough": 100}),
+    Scenario("user_domain_results", scn_user_results, cases_user_results, {"quick": 3, "thorough": 20}),
+    Scenario("plan_steps_hand_over", scn_steps, cases_steps, {"quick": 1, "thorough": 2}),
 ]
 
 MANIFEST = {
